@@ -547,6 +547,7 @@ func runC15(r *Run) {
 	{
 		pools := map[string]bool{"bonded_tokens_pool": true, "not_bonded_tokens_pool": true}
 		nPool := 0
+		perFn := map[string]int{}
 		for _, fn := range P.Funcs {
 			if !isHaqqPath(fnPkgPath(fn)) || isTestSupport(P, fn) || fn.Synthetic != "" {
 				continue
@@ -571,8 +572,9 @@ func runC15(r *Run) {
 						continue
 					}
 					nPool++
+					perFn[fnID(fn)+"#"+ci.Name]++
 					_, isConst := a.(*ssa.Const)
-					r.Check(isConst, "R11", fmt.Sprintf("%s#%s/pool-is-constant-%d", fnID(fn), ci.Name, nPool), P.Pos(instrPos(ci.Instr)), "staking pool named by a constant",
+					r.Check(isConst, "R11", fmt.Sprintf("%s#%s/pool-is-constant-%d", fnID(fn), ci.Name, perFn[fnID(fn)+"#"+ci.Name]), P.Pos(instrPos(ci.Instr)), "staking pool named by a constant",
 						"the staking pool a bank move names is chosen at run time (one of "+strings.Join(sortedKeys(names), ", ")+" by some status test): for a validator in the state the test does not distinguish (Unbonding) the wrong pool is debited and the pools no longer equal the bonded / not-bonded token totals")
 				}
 			})
